@@ -9,7 +9,7 @@ flags = sys.argv[3:]
 cxx = 'g++'
 if flags and flags[0].startswith('CXX='):
     cxx = flags[0][4:]; flags = flags[1:]
-d = f'/tmp/seed/{prop}'; wt = d + '/wt'; o = f'{d}/out/{x}'
+d = os.environ.get('SEED_DIR', f'/tmp/seed/{prop}'); wt = d + '/wt'; o = f'{d}/out/{x}'
 def sh(cmd, **kw): return subprocess.run(cmd, shell=True, capture_output=True, text=True, **kw)
 assert sh(f'git -C {wt} status --porcelain --untracked-files=no').stdout.strip() == '', 'worktree not clean'
 demo_cmd = f'{cxx} -std=c++17 -O2 -DGLM_ENABLE_EXPERIMENTAL -I{wt} {" ".join(flags)} {o}/demo.cpp -o {d}/demo_bin'
@@ -30,12 +30,13 @@ try:
 finally:
     sh(f'git -C {wt} checkout -- .'); shutil.rmtree(f'{wt}/_build', ignore_errors=True)
     if os.path.exists(f'{d}/demo_bin'): os.remove(f'{d}/demo_bin')
-ok = log['demo_clean_exit'] == 0 and log['suite_builds'] and log['ctest'].startswith('100% tests passed, 0 tests failed out of 185') and log['demo_patched_exit'] != 0
+benign = os.environ.get('SEED_BENIGN') == '1'
+ok = log['demo_clean_exit'] == 0 and log['suite_builds'] and log['ctest'].startswith('100% tests passed, 0 tests failed out of 185') and ((log['demo_patched_exit'] == 0) if benign else (log['demo_patched_exit'] != 0))
 log['confirmed'] = ok; log['demo_compile_cmd'] = demo_cmd.replace(wt, '<glm tree>').replace(o + '/', '').replace(d + '/demo_bin', 'demo')
 print(json.dumps(log, indent=1))
 if ok:
     dst = f'/verif/seeded/{prop}-{x}'; os.makedirs(dst, exist_ok=True)
     for f in ('patch.diff', 'demo.cpp', 'README.md'): shutil.copy(f'{o}/{f}', dst)
-    json.dump({'property': prop, 'seed': f'{prop}-{x}', 'origin': 'independent sub-agent given only the property text and a scratch worktree',
+    json.dump({'property': prop, 'seed': f'{prop}-{x}', 'kind': 'benign-refactor (must NOT be reported)' if benign else 'property-breaking', 'origin': 'independent sub-agent given only the property text and a scratch worktree',
                'needs_to_manifest': 'see README.md (written by the sub-agent)', 'confirmation': log, 'detected_by': []}, open(dst + '/meta.json', 'w'), indent=1)
 sys.exit(0 if ok else 1)
